@@ -27,9 +27,14 @@ def iv_of(t: Term, leaf: Callable[[Term], Optional[Iv]]) -> Optional[Iv]:
         return (Fraction(r[0]), Fraction(r[1]))
     if k == "bin":
         a, b = iv_of(t[2], leaf), iv_of(t[3], leaf)
+        op = t[1]
+        if op == "&" and (a is None) != (b is None):
+            # x & M for a non-negative constant M lies in 0..M whatever the integer x is
+            m = a if b is None else b
+            if m[0] == m[1] and m[0] >= 0:
+                return (Fraction(0), m[0])
         if a is None or b is None:
             return None
-        op = t[1]
         if op == "+":
             return (a[0] + b[0], a[1] + b[1])
         if op == "-":
